@@ -156,6 +156,49 @@ int main(int argc, char** argv)
         }
         return 0;
     }
+    if (mode == "wakeups") {
+        // Lost-wakeup scenarios (deterministic in structure, repeated): every blocked caller must be released when the
+        // queue changes so that it can proceed.  (a) K consumers blocked on an empty queue, K puts back to back;
+        // (b) K producers blocked on a full queue, K gets back to back.  A caller still blocked 2 s later is reported.
+        using namespace std::chrono;
+        int trials = argc > 2 ? std::atoi(argv[2]) : 20;
+        for (int trial = 0; trial != trials; ++trial) {
+            for (int K = 2; K <= 3; ++K) {
+                {   // (a)
+                    mobilinkd::queue<int, 3> q;
+                    std::atomic<int> done{0}, got{0};
+                    std::vector<std::thread> cs;
+                    for (int i = 0; i != K; ++i) cs.emplace_back([&] { int v; if (q.get(v)) ++got; ++done; });
+                    std::this_thread::sleep_for(milliseconds(30));
+                    for (int i = 0; i != K; ++i) q.put(100 + i);
+                    auto end = steady_clock::now() + seconds(2);
+                    while (done.load() != K && steady_clock::now() < end) std::this_thread::sleep_for(milliseconds(1));
+                    int d = done.load(); size_t left = q.size();
+                    q.close();
+                    for (auto& t : cs) t.join();
+                    if (d != K) { std::printf("LOST-WAKEUP kind=consumers blocked=%d returned=%d items_left_in_queue=%zu trial=%d\n", K, d, left, trial); return 0; }
+                }
+                {   // (b)
+                    mobilinkd::queue<int, 2> q;
+                    q.put(1); q.put(2);
+                    std::atomic<int> done{0};
+                    std::vector<std::thread> ps;
+                    for (int i = 0; i != K; ++i) ps.emplace_back([&, i] { q.put(10 + i); ++done; });
+                    std::this_thread::sleep_for(milliseconds(30));
+                    int v;
+                    for (int i = 0; i != K; ++i) q.get(v, milliseconds(500));
+                    auto end = steady_clock::now() + seconds(2);
+                    while (done.load() != K && steady_clock::now() < end) std::this_thread::sleep_for(milliseconds(1));
+                    int d = done.load(); size_t sz = q.size();
+                    q.close();
+                    for (auto& t : ps) t.join();
+                    if (d != K) { std::printf("LOST-WAKEUP kind=producers blocked=%d returned=%d queue_size=%zu capacity=2 trial=%d\n", K, d, sz, trial); return 0; }
+                }
+            }
+        }
+        std::printf("wakeups ok trials=%d\n", trials);
+        return 0;
+    }
     if (mode == "stress" && argc >= 8) {
         int cap = std::atoi(argv[2]), P = std::atoi(argv[3]), C = std::atoi(argv[4]), closer = std::atoi(argv[5]), N = std::atoi(argv[6]);
         uint64_t seed = std::strtoull(argv[7], nullptr, 10);
